@@ -31,6 +31,18 @@ CLAIMED = {
         "os.File Read/Write contracts; dailylogger is a dependency",
         "DESIGN.md 4.16",
     ),
+    "C17": (
+        "static information-flow (taint) analysis: start-time parameter as source, week quantiser as sanitiser, Handler fields as sinks; structural check of the quantiser",
+        "Decides non-interference of the start time modulo the week quantiser for all start times: any unquantised flow into handler state is reported with its def-use chain. Calendar arithmetic of the quantiser is assumed.",
+        "time package semantics; quantiser granularity argued structurally (Sunday 00:00:00 UTC) and tested by the suite",
+        "DESIGN.md 4.17",
+    ),
+    "C19": (
+        "static path rules on both relay loops (read->peer write exactly once, same buffer and n, fresh buffer), non-mutation scan, taint analysis of traffic-derived text to the status page with the escape helper as sanitiser, provenance (who may call Add / send on the byte channel)",
+        "Decides the relay and escaping structure on every CFG path and every flow into the page; TCP/HTTP behaviour is outside.",
+        "net.Conn Read/Write contracts; statusreporter dependency; escape helper adequacy = replaces '<' and '>' throughout",
+        "DESIGN.md 4.19",
+    ),
     "C18": (
         "static lock-discipline analysis (every field access dominated by the queue's lock, writes under the write lock, helpers called with the lock held), encapsulation check, structural FIFO rules (monotone key, evict-before-insert with >=, ascending sorted snapshot)",
         "Decides for all operation sequences and interleavings the structural conditions of a bounded FIFO under a readers-writer lock; linearizability follows from atomic critical sections and is not enumerated.",
